@@ -93,6 +93,7 @@ func CheckC01Offline(spec *vexec.CaseSpec, out *vexec.Outcome) []Report {
 	firstEnter := map[string]int{}
 	lastEnter := map[string]int{}
 	lastExit := map[string]int{}
+	lastExitInfo := map[string]string{}
 	for _, e := range out.Events {
 		switch e.Kind {
 		case "RUN_ENTER":
@@ -102,6 +103,7 @@ func CheckC01Offline(spec *vexec.CaseSpec, out *vexec.Outcome) []Report {
 			lastEnter[e.Step] = e.Seq
 		case "RUN_EXIT":
 			lastExit[e.Step] = e.Seq
+			lastExitInfo[e.Step] = e.Info
 		}
 	}
 	for name, s := range by {
@@ -112,6 +114,11 @@ func CheckC01Offline(spec *vexec.CaseSpec, out *vexec.Outcome) []Report {
 		for _, d := range s.Depends {
 			if le, ok := lastEnter[d]; ok && le > fe {
 				rs = append(rs, Report{"C01", "dep-reran", fmt.Sprintf("dependency %s entered Run() (event %d) after its dependent %s had started (event %d)", d, le, name, fe)})
+			}
+			// ground truth, independent of what the dependency's node claims: its last
+			// execution ended in error and it does not continue on failure
+			if lx, ok := lastExit[d]; ok && lx < fe && lastEnter[d] < fe && strings.HasSuffix(lastExitInfo[d], "|err") && by[d] != nil && !by[d].ContFail {
+				rs = append(rs, Report{"C01", "dep-failed", fmt.Sprintf("step %s started (event %d) although the last execution of its dependency %s had failed (event %d) and %s does not continue on failure", name, fe, d, lx, d)})
 			}
 			if lx, ok := lastExit[d]; ok && lx > fe {
 				rs = append(rs, Report{"C01", "dep-exit-late", fmt.Sprintf("dependency %s's last Run() returned (event %d) after its dependent %s had started (event %d)", d, lx, name, fe)})
